@@ -352,7 +352,8 @@ def run(ctx):
         "simplifications_that_changed_something": cov.simplified_changed, "simplifier_sense_flips": cov.flips,
         "type_changes": cov.out_types,
         "named_deviation_hits": devs,
-        "exhaustive": "every surface of every type over the small parameter ranges of vsurf.cc exhaustive_family "
+        "exhaustive": False,
+        "enumeration": "every surface of every type over the small parameter ranges of vsurf.cc exhaustive_family "
                       "(quick: every 4th, general quadrics every 400th; thorough: all, general quadrics every 20th); "
                       "points/directions/transforms seeded samples of the lattice cube, the 26+12 directions, the 48 "
                       "signed permutations x translations, Pythagorean rotations (den 3, 5, 7, 13)",
